@@ -241,4 +241,45 @@ Section Inst.
       cbn [nth empty_slot s_cells s_maxd]. rewrite repeat_length. split; [reflexivity | lia].
     - pose proof (civ_le_yearend ende ltac:(lia)). fold ye in H. exact H.
   Qed.
+
+  (* start INSIDE a year (multi-year layouts): the store holds the start year from day a on (a not
+     after the first simulated day) and the following years completely — what
+     loader_places_partial delivers for a series that begins on day a of the start year *)
+  Lemma alignment_store_lemma penman (st : store T) a anjahr yE beginn itag ende :
+    yE <= 2099 -> 1 <= a <= itag -> 1 <= beginn <= ende -> ende <= jan0 (yE + 1) ->
+    dy (civ beginn) = anjahr -> doy (civ beginn) = itag -> anjahr <= yE ->
+    (forall y, anjahr <= y <= yE ->
+       exists s, find_year st y = Some s /\ s_maxd s = ylen y /\ length (s_cells s) = 366%nat /\
+                 forall d, (if y =? anjahr then a else 1) <= d <= ylen y ->
+                           okrec y d (nth (Z.to_nat (d - 1)) (s_cells s) wzero)) ->
+    exists l, run_sim reload_multi penman st anjahr beginn itag ende = RunOk l /\
+              length l = ndays beginn ende /\ consumed_ok l beginn.
+  Proof.
+    intros HyE Ha Hb He Hdy Hdoy Hy P.
+    assert (Hrange : 1 <= beginn <= 72684).
+    { pose proof (jan0_mono (yE + 1) 2100 ltac:(lia)). rewrite jan0_2100 in *. lia. }
+    set (ok' := fun y d c => (y = anjahr /\ d < a) \/ okrec y d c).
+    destruct (alignment_lemma (T:=T) reload_multi penman (fun s => s = st) ok' anjahr yE HyE) with
+      (src0 := st) (anjahr := anjahr) (beginn := beginn) (itag := itag) (ende := ende) as (l & R & Ln & Al); auto; try lia.
+    - intros src y -> Hyy. destruct (P y Hyy) as (s & F & M & L & N).
+      exists st, s. unfold reload_multi. rewrite F.
+      split; [reflexivity|]. split; [reflexivity|]. split; [exact M|]. split; [exact L|].
+      intros d Hd. unfold ok'. destruct (Z.eqb_spec y anjahr) as [->|Hne].
+      + destruct (Z_lt_le_dec d a) as [Lt|Ge]; [left; split; [reflexivity | exact Lt]|].
+        right. apply N. lia.
+      + right. apply N. lia.
+    - exists l. split; [exact R|]. split; [exact Ln|].
+      intros k z c r Hn. destruct (Al k z c r Hn) as (Z1 & Z2 & cc & Z3 & Z4).
+      split; [exact Z1|]. split; [exact Z2|]. exists cc. split; [exact Z3|].
+      destruct Z4 as [[Ey Hlt]|Hok]; [|exact Hok].
+      (* a day of the start year is not before the first simulated day *)
+      exfalso.
+      assert (Hlen : (k < length l)%nat) by (apply nth_error_Some; rewrite Hn; discriminate).
+      assert (Hz : beginn <= z <= 72684).
+      { rewrite Ln in Hlen. unfold ndays in Hlen.
+        pose proof (jan0_mono (yE + 1) 2100 ltac:(lia)). rewrite jan0_2100 in *. lia. }
+      destruct (civ_closed z ltac:(lia)) as (E1 & _ & _).
+      destruct (civ_closed beginn Hrange) as (E2 & _ & _).
+      rewrite Ey in E1. rewrite Hdy, Hdoy in E2. lia.
+  Qed.
 End Inst.
